@@ -6,6 +6,7 @@ import re
 from hypothesis import strategies as st
 
 from vlib import harness, simnet
+from vlib.ftpmodel import DIR
 from vlib.harness import HOST, PORT, aioftp, instrument
 from vlib.runner import Violation, hyp_run
 from vlib.scripts import CORPUS, PAY2, ScriptRunner, c, down, render, up
@@ -379,6 +380,80 @@ def judge_pipelined(case, out, baseline):
             bad("reply_of_failed_command_out_of_place")
 
 
+# ---------------------------------------------------------------- the backend fails while a transfer is being aborted
+async def _abortfault(loop, kind, op, after):
+    ctl = harness.Ctl()
+    ctl.delays = {"read": 0.2, "write": 0.2}
+    server = aioftp.Server(path_io_factory=instrument(aioftp.MemoryPathIO, ctl), block_size=8, wait_future_timeout=2)
+    await server.start(HOST, PORT)
+    harness.mem_populate(server, {"/": DIR, "/f": bytes(range(200)), "/g": b"old"})
+    raw = harness.Raw(HOST, PORT, patience=6)
+    await raw.connect()
+    await raw.cmd("USER anonymous")
+    await raw.cmd("EPSV")
+    dr, dw = await raw.open_data()
+    await asyncio.sleep(0.1)
+    code, _ = await raw.cmd({"RETR": "RETR /f", "STOR": "STOR /n", "APPE": "APPE /g"}[kind])
+    replies = [code]
+    if code == "150":
+        if kind != "RETR":
+            dw.write(b"x" * 40)
+        await asyncio.sleep(after)
+        # every later call of `op` fails: the one made while the worker is being cancelled included
+        ctl.fail_names = {op}
+        raw.send("ABOR")
+        while len(replies) < 6:
+            c_, _l = await raw.reply()
+            replies.append(c_)
+            if c_ in ("EOF", "SILENCE"):
+                break
+    ctl.fail_names = set()
+    follow = (await raw.cmd("PWD"))[0] if replies[-1] != "EOF" else None
+    _d, eof = await harness.read_all(dr, 3)
+    raw.close()
+    dw.close()
+    await asyncio.wait_for(server.close(), 1000)
+    return dict(replies=replies, follow=follow, data_eof=eof, fired=list(ctl.fired))
+
+
+def judge_abortfault(case, out):
+    kind, op, after = case
+    detail = dict(kind=kind, failing=op, abor_after=after, **out)
+    r = [x for x in out["replies"] if x not in ("SILENCE",)]
+    if "EOF" in r:
+        raise Violation(f"C13/abortfault/{op}/session_closed", detail)
+    # the transfer ends with 426 or, when the backend failed, 451 - never with a success reply; the ABOR gets its own 226
+    if len(r) != 3 or r[0] != "150" or r[1] not in ("426", "451") or r[2] != "226":
+        sym = "abor_unanswered" if len(r) < 3 else "reply_sequence_" + "+".join(r)
+        raise Violation(f"C13/abortfault/{op}/{sym}", detail)
+    if out["fired"] and r[1] != "451" and False:
+        pass
+    if out["follow"] != "257":
+        raise Violation(f"C13/abortfault/{op}/session_unusable_afterwards", detail)
+    if out["data_eof"] is False:
+        raise Violation(f"C13/abortfault/{op}/data_connection_left_open", detail)
+
+
+def abortfault_cases(tier):
+    return [(k, op, a) for k in ("RETR", "STOR", "APPE") for op in ("close", "read" if True else "", "write", "seek") for a in (0.05, 0.3, 0.5)]
+
+
+def part_abortfault(ctx):
+    for case in abortfault_cases(ctx.tier)[ctx.shard::ctx.nshards]:
+        out = simnet.run(lambda loop: _abortfault(loop, *case))
+        ctx.count(("abortfault",) + case, bool(out["fired"]), sample=dict(kind=case[0], failing=case[1], abor_after=case[2], replies=out["replies"]),
+                  classes=["abortfault_" + case[1], "fired" if out["fired"] else "not_reached"])
+        try:
+            judge_abortfault(case, out)
+        except Violation as v:
+            ctx.fail(v.sig, dict(kind="abortfault", case=list(case)), v.detail)
+
+
+def replay_abortfault(case):
+    c = tuple(case["case"])
+    judge_abortfault(c, simnet.run(lambda loop: _abortfault(loop, *c)))
+
+
 def pipelined_cases(tier):
     out = []
     for bi, batch in enumerate(BATCHES):
@@ -413,4 +488,4 @@ def replay_pipelined(case):
 
 
 def plan(tier):
-    return [("enumerate", 16), ("tapes", 8), ("pipelined", 4)]
+    return [("enumerate", 16), ("tapes", 8), ("pipelined", 4), ("abortfault", 4)]
